@@ -285,7 +285,7 @@ func (s *sim) guard(fn func()) (stop bool) {
 		go func() { ch <- body() }()
 		select {
 		case o = <-ch:
-		case <-time.After(6 * time.Hour):
+		case <-time.After(10 * time.Minute):
 			s.r.Probe("store_hung_after_fault_abandoned")
 			s.r.Count("hangs_after_fault", 1)
 			if s.real != nil {
@@ -302,8 +302,23 @@ func (s *sim) guard(fn func()) (stop bool) {
 	}
 	if o.p != nil {
 		if fmt.Sprintf("%T", o.p) != "simkit.abortRun" && sutPanic(o.stack) {
-			s.r.Violate(prop, "no-panic", "", "panic in the store: %v\n%s", o.p, trim(o.stack, 3000))
-			return true
+			if s.plan.mode == fmCrash && s.fs.Frozen() {
+				// the "process" is already dead: what the abandoned store does
+				// on the frozen disk is an artefact of the simulation
+				s.r.Probe("panic_on_frozen_disk_ignored")
+				return s.guard(s.recoverFromCrash)
+			}
+			key := ""
+			if s.fired && (s.firedKind == "io_read_err" || s.firedKind == "io_open_err" || s.firedKind == "ldb_storage_err") {
+				// a metadata read that failed is reported as "key absent";
+				// code that then decodes the absent value panics
+				key = "panic-after-swallowed-read-error"
+			}
+			s.r.Violate(prop, "no-panic", key, "panic in the store after injected %s: %v\n%s", s.firedKind, o.p, trim(o.stack, 3000))
+			// listed finding: the panic unwound (and rolled back) the
+			// transaction; the state must be the one before it
+			n := s.model.Commits()
+			return s.guard(func() { s.aftermath(n, n) })
 		}
 		panic(o.p)
 	}
@@ -320,19 +335,31 @@ func trim(s string, n int) string {
 	return s
 }
 
-// sutPanic: the innermost non-runtime frame below the panic is repository or
-// goleveldb code.
+// sutPanic: the frame that raised the original panic (the last "panic(" in the
+// trace; re-panics of deferred functions come first), skipping standard
+// library frames, is repository or goleveldb code.
 func sutPanic(stack string) bool {
-	seen := false
-	for _, l := range strings.Split(stack, "\n") {
+	lines := strings.Split(stack, "\n")
+	last := -1
+	for i, l := range lines {
 		if strings.HasPrefix(l, "panic(") {
-			seen = true
+			last = i
+		}
+	}
+	if last < 0 {
+		return false
+	}
+	for _, l := range lines[last+1:] {
+		if strings.HasPrefix(l, "\t") || l == "" {
 			continue
 		}
-		if !seen || strings.HasPrefix(l, "\t") || l == "" || strings.HasPrefix(l, "runtime.") || strings.HasPrefix(l, "runtime/") {
-			continue
+		if strings.HasPrefix(l, "github.com/btcsuite/btcd") || strings.HasPrefix(l, "github.com/syndtr/goleveldb") {
+			return true
 		}
-		return strings.HasPrefix(l, "github.com/btcsuite/btcd") || strings.HasPrefix(l, "github.com/syndtr/goleveldb")
+		if strings.HasPrefix(l, "verif/") {
+			return false
+		}
+		// standard library frame (encoding/binary, runtime, bytes ...): keep looking
 	}
 	return false
 }
@@ -459,6 +486,7 @@ func (s *sim) restartAfterFault(why string) bool {
 	s.postFault = true
 	s.restarts++
 	s.r.Count("restarts_after_io_error", 1)
+	s.r.Count("restart_why:"+strings.SplitN(why, ":", 2)[0]+"/"+s.firedKind+"@"+s.firedPoint.Kind.String(), 1)
 	if s.restarts > 3 {
 		s.r.Count("gave_up_after_repeated_restarts", 1)
 		return false
@@ -645,7 +673,10 @@ func (s *sim) crashViolation(oracle string, lostLoose int, format string, args .
 func (s *sim) finish() {
 	f0 := s.fired
 	d, err := s.dump(s.real)
-	if s.fired && !f0 {
+	if s.fs.Frozen() {
+		s.recoverFromCrash()
+		d, err = s.dump(s.real)
+	} else if s.fired && !f0 {
 		// the injected fault hit this very dump: it was a read-only victim
 		s.handled, s.postFault = true, true
 		d, err = s.dump(s.real)
@@ -686,7 +717,10 @@ func (s *sim) finish() {
 	}
 	f0 = s.fired
 	d, err = s.dump(s.real)
-	if s.fired && !f0 {
+	if s.fs.Frozen() {
+		s.recoverFromCrash()
+		d, err = s.dump(s.real)
+	} else if s.fired && !f0 {
 		s.handled, s.postFault = true, true
 		d, err = s.dump(s.real)
 	}
@@ -697,7 +731,8 @@ func (s *sim) finish() {
 		s.violate(s.laterOracle(), "", "state after a clean Close+Open differs from the model: %s", firstDiff(d, m))
 	}
 	s.event("final", "commits=%d dump=%s", s.model.Commits(), encBytes([]byte(d)))
-	if err := s.closeReal(); err != nil && !s.postFault {
+	f0 = s.fired
+	if err := s.closeReal(); err != nil && !s.postFault && !(s.fired && !f0) && !s.fs.Frozen() {
 		s.violate("refinement", "", "last Close failed: %v", err)
 	}
 }
